@@ -25,6 +25,7 @@ META = {
 }
 META["explanation"] += ' R05.9 the Vec the batched stream accumulates for one item is only ever grown (no clear / truncate / pop / drain of received diffs).'
 META["explanation"] += ' R05.11 every public mutator publishes before it returns (publication call post-dominates the structural change). R05.12 who-may-create-a-receiver: Sender::subscribe only in ObservableVector::subscribe (next to the snapshot), Receiver::resubscribe nowhere. R05.1 also accepts a diff built on two branches when both alternatives pair with the method.'
+META["explanation"] += ' R05.9 also requires the collected batch to grow at its back only (no swap / replace / insert / reverse of it).'
 
 VEC_T = "vector::ObservableVector<T>"
 TXN_T = "vector::transaction::ObservableVectorTransaction<'o, T>"
@@ -496,6 +497,37 @@ def r05_9(ctx):
                 bad += 1
                 ctx.violated("R05.9", f, "batch-never-shrinks", b.line_at((blk, 10 ** 6)),
                              "the batched stream applies `%s` to the batch it is collecting (the value it returns as Some(batch)): diffs of messages it has already received are dropped, so the item is not the concatenation of the pending updates and the intermediate states cannot be replayed" % (t.get("callee") or "").split("::")[-1])
+        # ... and only at its back: swapping / replacing the collected batch, or inserting before its end, puts a later message's
+        # diffs in front of earlier ones
+        REORDER = r"^std::mem::(swap|replace|take)$|^std::vec::Vec::<.*>::(insert|splice|extend_from_within)$|slice::<impl \[T\]>::(reverse|rotate_left|rotate_right|swap|sort\w*)$"
+
+        def root_of(o, depth=0):
+            if depth > 8 or o.get("k") not in ("move", "copy"):
+                return None
+            pl = o["place"]
+            if [x for x in pl["proj"] if x != "deref"]:
+                return None
+            l = pl["l"]
+            if l in acc:
+                return l
+            for loc2, kind2, p2 in whole.get(l, []):
+                if kind2 == "assign" and p2["k"] in ("ref", "raw") and not [x for x in p2["place"]["proj"] if x != "deref"]:
+                    if p2["place"]["l"] in acc:
+                        return p2["place"]["l"]
+                    r_ = root_of({"k": "copy", "place": {"l": p2["place"]["l"], "proj": []}}, depth + 1)
+                    if r_ is not None:
+                        return r_
+                elif kind2 == "assign" and p2["k"] == "use":
+                    r_ = root_of(p2["op"], depth + 1)
+                    if r_ is not None:
+                        return r_
+            return None
+        for blk, t in b.calls(REORDER):
+            hit = [a for a in t["args"] if root_of(a) is not None]
+            if hit:
+                bad += 1
+                ctx.violated("R05.9", f, "batch-grows-at-the-back-only", b.line_at((blk, 10 ** 6)),
+                             "the batched stream applies `%s` to the batch it is collecting: diffs of a later message can end up in front of diffs received earlier, so the item is not the concatenation of the pending updates in order" % (t.get("callee") or "").split("::")[-1])
         if not bad:
             ctx.holds("R05.9", f, "batch-never-shrinks", f.loc(), "the collected batch (locals %s) is only grown" % sorted(acc))
     ctx.floor("R05.9", n, 1)
